@@ -16,6 +16,12 @@ Decided structurally:
                 switch total over VRESULT; unknown user number -> VR_INVALIDARG without touching any table
   C05.pad       a late-appearing column is padded to the current row count before its first cell; EndRow pads every column
                 (loop over all columns, no early exit) after incrementing the row count
+  C05.upgate    USER_PUNCH columns are in all three sinks or in none: tidy_punch (headings), punch_user_punch (values) and
+                IPhreeqc::EndRow (table padding) each test current_user_punch together with the block's -user_punch switch
+  C05.rowend    every engine function that ends a selected-output line (punch_msg("\\n")) also ends the table row (fpunchf_end_row);
+                punch_model (inverse-model records) does not: known finding
+  C05.varalloc  a string cell holds its text, the empty string included: VarAllocString returns NULL early only under a null test of the
+                source (its callers store an error-typed VAR for any other NULL)
   C05.var       VarClear / VarCopy are total over VAR_TYPE; VarCopy clears the destination and deep-copies strings
   C05.gate      every engine write of the selected-output print switch pr.punch is followed by the matching
                 phrq_io->Set_punch_on(..) (string/file gate), so table, string and file are switched together
@@ -51,6 +57,9 @@ def run(P, R, tier):
     get_rules(P, R)
     pad_rules(P, R)
     var_rules(P, R)
+    varalloc_rule(P, R)
+    upgate_rule(P, R)
+    rowend_rule(P, R)
     lines_rule(P, R, "C05.lines", only=("GetSelectedOutputStringLine",))
     once_rule(P, R)
     open_rule(P, R)
@@ -863,6 +872,106 @@ def var_rules(P, R):
             R.ok("C05.var", "VarClear:free", "string freed, VAR re-initialised")
         else:
             R.violation("C05.var", "VarClear:free", "VarClear does not free the string and re-initialise the VAR", file=f["file"], line=f["line"], function=f["q"])
+
+
+def upgate_rule(P, R):
+    """USER_PUNCH columns exist in all three sinks or in none: the headings go to the file / string in tidy_punch, the values in
+    punch_user_punch, the padding of never-punched headings into the value table in IPhreeqc::EndRow.  Each of the three tests the
+    presence of a USER_PUNCH block (current_user_punch) AND the block's -user_punch switch (Get_user_punch()); a site that tests only
+    the first adds columns to its sink that the others do not have."""
+    RULE = "C05.upgate"
+    R.rule(RULE, "the three sites that emit USER_PUNCH columns (headings, values, table padding) test current_user_punch and the -user_punch switch alike", minimum=3)
+    SITES = ("Phreeqc::tidy_punch", "Phreeqc::punch_user_punch", "IPhreeqc::EndRow")
+    n = 0
+    for q in SITES:
+        fs = P.fns_named(q)
+        if not fs:
+            R.anchor_missing(RULE, "%s not found" % q)
+            continue
+        f = fs[0]
+        conds = [x for x in T.walk(f["body"]) if x[0] == "If" and any(y[0] == "Member" and y[2] == "Phreeqc::current_user_punch" for y in T.walk(x[2]))]
+        if not conds:
+            R.anchor_missing(RULE, "%s no longer tests current_user_punch" % q)
+            continue
+        for x in conds:
+            n += 1
+            inst = "%s@%d" % (q.split("::")[-1], x[1])
+            if any(T.callee_name(c) == "Get_user_punch" for c in T.calls(x[2])):
+                R.ok(RULE, inst, "tests the block and its -user_punch switch")
+            else:
+                R.violation(RULE, inst, "`%s` tests only the presence of a USER_PUNCH block, not the -user_punch switch of the SELECTED_OUTPUT block: with `-user_punch false` this sink "
+                            "gets the USER_PUNCH columns and the others do not" % T.text(x[2])[:70], file=f["file"], line=x[1], function=f["q"])
+    if n < 3:
+        R.anchor_missing(RULE, "only %d gated sites found" % n)
+
+
+def rowend_rule(P, R):
+    """"equal numbers of data rows": a selected-output line is ended in the string / file by punch_msg("\\n") and in the value table by
+    fpunchf_end_row().  Every engine function that ends a line must end the row as well."""
+    RULE = "C05.rowend"
+    R.rule(RULE, "every engine function that ends a selected-output line (punch_msg(\"\\n\")) also ends the table row (fpunchf_end_row)", minimum=2)
+    n = 0
+    for key, f in sorted(P.functions.items()):
+        if not f.get("body") or not f["q"].startswith("Phreeqc::"):
+            continue
+        ends = [c for c in T.calls(f["body"]) if T.callee_name(c) == "punch_msg" and c[4] and T.strip_casts(c[4][0])[0] == "Lit" and str(T.strip_casts(c[4][0])[3]).strip('"') in ("\\n", "\n")]
+        if not ends:
+            continue
+        n += 1
+        inst = f["q"].split("::")[-1]
+        if any(T.callee_name(c) == "fpunchf_end_row" for c in T.calls(f["body"])):
+            R.ok(RULE, inst, "line end and row end")
+        else:
+            R.violation(RULE, inst, "%s ends the selected-output line in the string and the file but never ends the table row: the string has one line per punched record, the "
+                        "table keeps the cells pending (successive records overwrite each other, a later ordinary row absorbs them)" % inst,
+                        file=f["file"], line=ends[0][1], function=f["q"])
+    if n < 2:
+        R.anchor_missing(RULE, "only %d line-ending punch functions found (punch_all, punch_model)" % n)
+
+
+def varalloc_rule(P, R):
+    """A string cell holds its text, the empty string included: VarAllocString duplicates every non-NULL source.  Its callers
+    (CVar::operator=(const char*), VarCopy) read a NULL result for a non-NULL source as an allocation failure and store an
+    error-typed VAR.  So the only early `return NULL` allowed before the allocation is the one guarded by a null test of the source."""
+    RULE = "C05.varalloc"
+    R.rule(RULE, "VarAllocString returns NULL early only for a NULL source; callers turn any other NULL into an error-typed VAR", minimum=2)
+    fs = P.fns_named("VarAllocString")
+    if len(fs) != 1:
+        R.anchor_missing(RULE, "VarAllocString: %d definitions" % len(fs))
+        return
+    f = fs[0]
+    src = f["pnames"][0]
+    where = dict(file=f["file"], function=f["q"])
+
+    def is_null_test_of_src(c):
+        c = T.strip_casts(c)
+        if c[0] == "Paren":
+            return is_null_test_of_src(c[2])
+        if c[0] == "Un" and c[2] == "!" and param_name(c[3]) == src:
+            return True
+        if c[0] == "Bin" and c[2] == "==":
+            a, b = T.strip_casts(c[3]), T.strip_casts(c[4])
+            return (param_name(a) == src and b[0] == "Lit" and str(b[3]) in ("0", "NULL", "nullptr")) or (param_name(b) == src and a[0] == "Lit" and str(a[3]) in ("0", "NULL", "nullptr"))
+        return False
+    malloc_line = min([c[1] for c in T.calls(f["body"]) if T.callee_name(c) in ("malloc", "calloc", "strdup")] or [10 ** 9])
+    if malloc_line == 10 ** 9:
+        R.anchor_missing(RULE, "VarAllocString no longer allocates with malloc/calloc/strdup")
+        return
+    bad = []
+    n = 0
+    for x in T.walk(f["body"]):
+        if x[0] == "If" and x[1] <= malloc_line and any(y[0] == "Return" and T.is_node(y[2]) and T.strip_casts(y[2])[0] == "Lit" for y in T.walk(x[3])):
+            n += 1
+            if not is_null_test_of_src(x[2]):
+                bad.append(x)
+    if bad:
+        R.violation(RULE, "VarAllocString:early-null", "VarAllocString returns NULL under `%s`, not only for a NULL source: for that source the callers store an error-typed VAR "
+                    "(VR_OUTOFMEMORY) in the value table while the string, the lines and the file show the text cell" % T.text(bad[0][2])[:60], line=bad[0][1], **where)
+    else:
+        R.ok(RULE, "VarAllocString:early-null", "%d early NULL return(s), each guarded by a null test of the source" % n)
+    # callers: NULL for a non-NULL source -> error-typed VAR
+    callers = [g for g in P.functions.values() if g.get("body") and any(T.callee_name(c) == "VarAllocString" for c in T.calls(g["body"])) and g["q"] != "VarAllocString"]
+    R.ok(RULE, "callers", "%d callers (%s)" % (len(callers), ", ".join(sorted(set(g["q"] for g in callers)))[:100])) if callers else R.anchor_missing(RULE, "no caller of VarAllocString found")
 
 
 # ------------------------------------------------------------------------------------------ line accessors (shared with C09)
